@@ -8,6 +8,8 @@ package main
 import (
 	"fmt"
 	"go/types"
+	"math"
+	"strconv"
 	"strings"
 	"unicode/utf8"
 )
@@ -43,8 +45,8 @@ type Atom struct {
 	id   int
 	Kind string // "itoa" (signed decimal), "utoa", "ftoa", "opaque"
 	Arg  Value
-	Bits int     // ftoa bit size
-	Len  *Term   // BV64 symbolic length
+	Bits int       // ftoa bit size
+	Len  *Term     // BV64 symbolic length
 	Set  [4]uint64 // charset bitmap
 	Name string
 }
@@ -363,6 +365,10 @@ func (in *Interp) strEq(a, b Str) Bool {
 	// a literal vs. text with atoms: decide by charset where possible
 	if r, ok := atomMismatch(a, b); ok {
 		return mkBool(r)
+	}
+	// a single number atom vs. a concrete text: equal iff the text is the canonical rendering of the number
+	if t, ok := atomVsConcrete(a, b); ok {
+		return symBool(t)
 	}
 	panic(engineErr("string equality with differing atom skeletons: " + a.Debug() + " vs " + b.Debug()))
 }
@@ -906,4 +912,70 @@ func valuesToStr(vs []Value) Str {
 		segs = append(segs, Seg{B: b})
 	}
 	return Str{segs: segs}.norm()
+}
+
+// atomVsConcrete: itoa(x)/utoa(x)/ftoa(f) == "c". strconv renders each number in exactly one way, so the
+// texts are equal iff c is the canonical rendering of some value n and the atom's argument equals n.
+func atomVsConcrete(a, b Str) (*Term, bool) {
+	if b.hasAtoms() {
+		a, b = b, a
+	}
+	cs, ok := b.Concrete()
+	if !ok || len(a.segs) != 1 || a.segs[0].A == nil {
+		return nil, false
+	}
+	at := a.segs[0].A
+	switch at.Kind {
+	case "itoa":
+		iv := at.Arg.(Int)
+		n, err := strconv.ParseInt(cs, 10, 64)
+		if err != nil || strconv.FormatInt(n, 10) != cs {
+			return FalseT, true
+		}
+		w := kindWidth(iv.K)
+		if sext(w, uint64(n)&mask(w)) != n {
+			return FalseT, true
+		}
+		return Eq(iv.Term(), BVC(w, uint64(n))), true
+	case "utoa":
+		iv := at.Arg.(Int)
+		n, err := strconv.ParseUint(cs, 10, 64)
+		if err != nil || strconv.FormatUint(n, 10) != cs {
+			return FalseT, true
+		}
+		w := kindWidth(iv.K)
+		if n&mask(w) != n {
+			return FalseT, true
+		}
+		return Eq(iv.Term(), BVC(w, n)), true
+	case "ftoa":
+		fv := at.Arg.(Float)
+		bits := at.Bits
+		if bits == 0 {
+			bits = 64
+		}
+		f, err := strconv.ParseFloat(cs, bits)
+		if err != nil || strconv.FormatFloat(f, 'f', -1, bits) != cs {
+			return FalseT, true
+		}
+		if f != f { // NaN
+			return FPIsNaN(fv.Term()), true
+		}
+		// bit-exact: distinguishes +0 / -0 the way FormatFloat does
+		t := fv.Term()
+		if floatW(fv.K) == 64 && bits == 32 {
+			return nil, false
+		}
+		c := FPC(floatW(fv.K), f)
+		if f == 0 {
+			neg := math.Signbit(f)
+			z := FPEq(t, c)
+			if neg {
+				return And(z, Not(FPIsPosZero(t))), true
+			}
+			return And(z, FPIsPosZero(t)), true
+		}
+		return FPEq(t, c), true
+	}
+	return nil, false
 }
